@@ -1,4 +1,5 @@
 import Dicom.Proofs.Provider2
+import Dicom.Proofs.Trace
 /-! # C05 — the provider run as a whole behaves as the PS3.8 protocol machine (loop model)
 
 `Prov.iter` is one pass of `DULServiceProvider.run`: socket reader, framing (abstracted to complete
@@ -91,38 +92,51 @@ theorem silent_after_end (p : P) (t : Tick) (hq : Quiet p) (hs : p.st = .s13)
     · subst h; simp
     · exact act_s13_silent e { (prePoll p t) with evq := r } a (by simp [hst, hs]) htab o ho'
 
-/-- kinds of observable effect, payloads erased -/
-inductive Shape | send | ind | close | connect | tStart | tStop
-deriving DecidableEq, Repr
-
-def shapeOfOut : Out → Shape
-  | .send _ | .sendAbort _ => .send
-  | .ind _ | .indAbort _ | .indDimse => .ind
-  | .close => .close | .connect => .connect
-  | .tStart | .tRestart => .tStart | .tStop => .tStop
-  | .crash => .close
-
-def shapeOfEff : Eff → Shape
-  | .sendUser | .send _ | .sendAbort _ | .sendAbortAny => .send
-  | .indReceived | .indAbort _ | .indDimse => .ind
-  | .close => .close | .connect => .connect
-  | .tStart | .tRestart => .tStart | .tStop => .tStop
-
 /-- **the loop model performs the Table 9-10 actions**: for every action, the model's next state and
 the sequence of its effects are those of the PS3.8 action definitions (`UL.effects`, which C04 proves
 the running state machine performs in every cell) — with the transport open and the P-DATA, if any,
 accepted by the DIMSE layer. -/
 theorem act_is_table_9_10 (a : Act) (p : P) (hs : p.sock = true) (hrx : p.rx ≠ some .pdataErr) :
     (act a p).1.st = (effects a p.requestor (p.rx == some .pdataDone)).2 ∧
-    (act a p).2.map shapeOfOut = (effects a p.requestor (p.rx == some .pdataDone)).1.map shapeOfEff := by
-  obtain ⟨st, sock, evq, rx, timer, now, tstart, raw, inbox, fromUser, gen, requestor, crashed⟩ := p
-  simp only at hs hrx
-  subst hs
-  cases a <;> simp [act, aa8Body, effects, shapeOfOut, shapeOfEff, hrx] <;>
-    (try (cases requestor <;> simp)) <;> (try (split <;> simp_all [shapeOfOut, shapeOfEff]))
+    (act a p).2.map shapeOfOut = (effects a p.requestor (p.rx == some .pdataDone)).1.map shapeOfEff :=
+  act_shapes a p (fun _ => hs) hrx
 
 -- non-vacuity: an association that is established, used and released
 example : (run initAcc [{}, {net := .data [.rq]}, {enq := [.ac]}, {net := .data [.pdataDone]}, {enq := [.msg 1]}, {},
     {net := .data [.rlrq]}, {enq := [.rlrp]}, {net := .eof}]).1.st = .s1 := by decide
+
+/-- **C05 (whole runs).** Over every history from either initial configuration — peer PDUs of any kind in any
+order and segmentation, any user primitives, transport closes, ARTIM expiries, time passing — in which no
+transport write fails, the DIMSE layer rejects no P-DATA and the loop does not die (the user issues nothing
+Table 9-10 leaves undefined), the ordered effects of the provider (PDUs sent, indications, transport and timer
+operations; payloads erased) and its final state are exactly those of the PS3.8 machine — `UL.table` and
+`UL.effects`, which C04 proves equal to the running code cell by cell — run over the events dispatched; the only
+other effect is the reader closing its side when it notices the peer's close, which happens exactly in the
+passes that dispatch Evt17 (`reader_close_is_e17`). -/
+theorem provider_follows_machine (init : P) (hi : init = initAcc ∨ init = initReq) (σ : List Tick)
+    (hcl : ∀ t ∈ σ, CleanTick t) (halive : (run init σ).1.crashed = false) :
+    machRun init.requestor .s1 (trace init σ) = some ((run init σ).2.map shapeOfOut, (run init σ).1.st) := by
+  rcases hi with rfl | rfl
+  · exact run_machine σ initAcc initAcc_inv ⟨by simp [initAcc], by simp [initAcc], by simp [initAcc]⟩ rfl halive hcl
+  · exact run_machine σ initReq initReq_inv ⟨by simp [initReq], by simp [initReq], by simp [initReq]⟩ rfl halive hcl
+
+/-- the reader closes its side only in a pass that dispatches Evt17 (transport connection closed) -/
+theorem reader_close_is_e17 (p : P) (t : Tick) (hc : p.crashed = false) (h : readerClose p t = true) :
+    ∃ c, passEvent p t = some (.e17, c) :=
+  Dicom.Prov.reader_close_is_e17 p t hc h
+
+-- non-vacuity: the history of the previous example is clean and survives, and its trace is the expected
+-- sequence of events
+example : (∀ t ∈ [({} : Tick), {net := .data [.rq]}, {enq := [.ac]}, {net := .data [.pdataDone]}, {enq := [.msg 1]}, {},
+      {net := .data [.rlrq]}, {enq := [.rlrp]}, {net := .eof}], CleanTick t) ∧
+    (run initAcc [{}, {net := .data [.rq]}, {enq := [.ac]}, {net := .data [.pdataDone]}, {enq := [.msg 1]}, {},
+      {net := .data [.rlrq]}, {enq := [.rlrp]}, {net := .eof}]).1.crashed = false ∧
+    (trace initAcc [{}, {net := .data [.rq]}, {enq := [.ac]}, {net := .data [.pdataDone]}, {enq := [.msg 1]}, {},
+      {net := .data [.rlrq]}, {enq := [.rlrp]}, {net := .eof}]).map (fun r => r.ev.map (·.1)) =
+      [some .e5, some .e6, some .e7, some .e10, some .e9, some .e9, some .e12, some .e14, some .e17] := by
+  refine ⟨?_, by decide, by decide⟩
+  intro t ht
+  simp only [List.mem_cons, List.not_mem_nil, or_false] at ht
+  rcases ht with rfl | rfl | rfl | rfl | rfl | rfl | rfl | rfl | rfl <;> exact ⟨rfl, by simp⟩
 
 end Dicom.C05
